@@ -14,6 +14,7 @@ import QsmtpModel.Lemmas.QrLegal
 import QsmtpModel.Lemmas.QrNoHang
 import QsmtpModel.Lemmas.QrNoFault
 import QsmtpModel.Lemmas.MimeNoFault
+import QsmtpModel.Lemmas.QrQpLines
 
 set_option linter.unusedSimpArgs false
 
@@ -100,6 +101,15 @@ theorem getfieldlen_no_fault (buf : List Byte) (start len k : Nat) (h : start + 
     ∃ n, getFieldLen buf start len = .ok n ∧ n ≤ len ∧
       (n ≠ 0 → k ≤ n ∧ (buf[start + n - 1]? = some CR ∨ buf[start + n - 1]? = some LF)) :=
   getFieldLen_ok buf start len k h hk1 hk hb
+
+/-- **legal_data, quoted-printable body.** For every body — any bytes, any line endings, lines of
+any length — every wire line of what recode_qp() sends is a legal line of SMTP data whether or not
+8BITMIME was announced: no CR or LF inside a line, never a line consisting of a single dot (a
+leading dot is always doubled), at most 77 octets, 7 bit only.  (Lemmas/QrQpLines.lean, from the
+same invariant as C07's `qp_line_rules_full`.) -/
+theorem recode_qp_legal (b : List Byte) (st : St) (h : recodeQp b {} = .ok st) (ext8 : Bool) :
+    ∀ l ∈ splitCrlf [] st.out, LegalLine ext8 l :=
+  recodeQp_legal b st h ext8
 
 /-- need_recode() is sound: no `recode_long_*` flag ⇒ every line, the last unterminated one
 included, has at most 998 bytes; no `recode_8bit` flag ⇒ every byte is in 1..127. (All its reads
